@@ -128,6 +128,10 @@ Markups == {
   <<60,63,32,96>>
 }
 SchemePlain == {JAVASCRIPT, VBSCRIPT, DATAURL, VIEWSOURCE}
+\* every one- and two-byte run of separators (white space and '/') between the tag name, or a quoted attribute, and the handler
+SomeEvents == {B_BlackEventSeq[i].name : i \in {j \in DOMAIN B_BlackEventSeq : j = 1 \/ j = Len(B_BlackEventSeq) \/ j % 64 = 0}}
+              \cup {<<67, 76, 73, 67, 75>>, <<69, 82, 82, 79, 82>>}
+AttrBefore == {<<>>, <<32, 97, 61, 39, 98, 39>>, <<47, 97, 61, 34, 98, 34>>}
 
 IsVecCase(c) ==
   \/ \E t \in BTags : \E cf \in CaseForms(t) : \E nm \in NulForms(cf) : \E bo \in {<<>>, <<120, 39, 62>>} : \E tail \in TagTails :
@@ -138,6 +142,8 @@ IsVecCase(c) ==
         c = [v |-> <<60, 120, 32>> \o nm \o <<61, 49, 62>>, fam |-> "event.nul"]
   \/ \E e \in BEvents : \E bo \in AttrBreakouts :
         c = [v |-> bo \o LowAscii(ON \o e) \o <<61, 49>>, fam |-> "event.attrctx"]
+  \/ \E e \in SomeEvents : \E pre \in AttrBefore : \E s1 \in Seps : \E s2 \in Seps \cup {-1} :
+        c = [v |-> <<60, 120>> \o pre \o (IF s2 = -1 THEN <<s1>> ELSE <<s1, s2>>) \o LowAscii(ON \o e) \o <<61, 49, 62>>, fam |-> "event.sep2"]
   \/ \E e \in BEvents : \E ws \in {<<32>>, <<10, 9>>, <<0>>} :
         c = [v |-> <<60, 120, 32>> \o LowAscii(ON \o e) \o ws \o <<61>> \o ws \o <<49, 62>>, fam |-> "event.space"]
   \/ \E a \in BAttrOfType(3) \cup BAttrOfType(1) \cup {XMLNS, XLINK} : \E cf \in CaseForms(a) : \E nm \in NulForms(cf) :
